@@ -969,9 +969,10 @@ func cmdCheck(args []string) {
 			}
 			knownLines = append(knownLines, fmt.Sprintf("KNOWN-FINDING: property=%s %s (harness %s, assertion %s, native replay: %s)", *prop, what, h.Name, v.Ob.ID, got))
 		}
-		// violations: replay natively before reporting, one per (harness, obligation id)
-		seen := map[string]bool{}
-		for _, v := range rep.violations {
+		// violations: replay natively before reporting, one report per (harness, obligation id);
+		// if the first counterexample of a group does not reproduce (its schedule may depend on
+		// choices the Go runtime makes at random), up to three further ones of the group are tried
+		keyOf := func(v violation) string {
 			key := v.Ob.Kind + "|" + v.Ob.ID
 			if v.Ob.Kind == "nopanic" {
 				if strings.HasPrefix(v.Ob.Msg, "deadlock") {
@@ -980,21 +981,44 @@ func cmdCheck(args []string) {
 					key += "|" + v.Ob.Msg
 				}
 			}
-			if seen[key] {
-				continue
+			return key
+		}
+		groups := map[string][]violation{}
+		var order []string
+		for _, v := range rep.violations {
+			key := keyOf(v)
+			if _, ok := groups[key]; !ok {
+				order = append(order, key)
 			}
-			seen[key] = true
+			if len(groups[key]) < 4 {
+				groups[key] = append(groups[key], v)
+			}
+		}
+		for _, key := range order {
+			cands := groups[key]
+			v := cands[0]
 			p := writeReplay(*prop, h, *tier, v.Ob)
 			if h.NoReplay {
 				lines = append(lines, fmt.Sprintf("INCONCLUSIVE harness=%s reason=counterexample-not-natively-replayable id=%s replay=%s", h.Name, v.Ob.ID, p))
 				rep.Inconclusive["cex-not-replayable"]++
 				continue
 			}
-			b, _ := os.ReadFile(p)
+			reproduced := false
 			var rf replayFile
-			json.Unmarshal(b, &rf)
-			got, out := nativeReplay(h, p)
-			if reproduces(rf.Expect, got) {
+			got, out := "", ""
+			for _, c := range cands {
+				v = c
+				p = writeReplay(*prop, h, *tier, c.Ob)
+				b, _ := os.ReadFile(p)
+				rf = replayFile{}
+				json.Unmarshal(b, &rf)
+				got, out = nativeReplay(h, p)
+				if reproduces(rf.Expect, got) {
+					reproduced = true
+					break
+				}
+			}
+			if reproduced {
 				violationsTotal++
 				exit = 1
 				lines = append(lines, fmt.Sprintf("VIOLATION property=%s replay=%s", *prop, p))
